@@ -209,7 +209,7 @@ class C20:
     DETERMINISM_PROBE_RUNS = 2
     MAX_OOD_FRACTION = 0.5      # more than that: the check cannot see (harness error), it does not "hold"
     TIERS = {
-        "quick": {"runs": 600, "budget_s": 170, "chunk": 4, "run_timeout_s": 400},
+        "quick": {"runs": 420, "budget_s": 170, "chunk": 4, "run_timeout_s": 400},
         "thorough": {"runs": 9000, "budget_s": 1700, "chunk": 8, "run_timeout_s": 400},
     }
     RULE = ("one run = one generated valid document of one format (JSON, JSON5, YAML, XML, HTML, plist) with: a torn "
